@@ -312,9 +312,10 @@ def classify_stuck(out):
                                                 "the endgame pipe of 1; the client found nothing to request, dropped its "
                                                 "interest and nothing raises it again: " + m.group(1))
     if g("int") == 0 and g("unch") == 1 and g("miss") > 0 and g("listed") == g("miss"):
-        return "no-completion-have-listed", ("the peer announced (HAVE) only pieces that are already listed in the transfer "
-                                             "list; ChunkSelector::received_have_chunk ignores them, the client never "
-                                             "declares interest again: " + m.group(1))
+        return "no-completion-have-listed", ("the client is not interested in an unchoking peer although every missing piece that peer "
+                                             "announced is listed in the transfer list (a HAVE for a listed piece was ignored, or "
+                                             "interest was dropped although is_interested_in_active should hold) and nothing "
+                                             "raises the interest again: " + m.group(1))
     if g("unheld") > 0:
         return "no-completion-choke-stalled", ("the peer's CHOKE arrived when only stalled requests were listed; "
                                                "RequestList::choked returns early and keeps them, Block::insert then refuses "
